@@ -57,7 +57,10 @@ def gen_cases(rng, tier):
                 q = [rng.randrange(16) for _ in range(rng.randint(0, 5))]
                 sched.append(["step", rng.choice(["nu", "nr", "nu"]), q])
         yield {"prune": rng.random() < 0.4, "ops": ops, "sched": sched,
-               "cache": rng.choice(["on", "on", "off", "reset"]), "reset_at": rng.randint(1, 10)}
+               "cache": rng.choice(["on", "on", "off", "reset"]), "reset_at": rng.randint(1, 10),
+               # a second walk: at this step the fog is replaced by a fresh one while the frontier cache of the abandoned
+               # walk is kept (0 = never)
+               "refog_at": rng.choice([0, 0, 2, 3, 5, 8])}
 
 
 def plist(l):
@@ -178,6 +181,17 @@ def run_case(case):
             cache = TrieFrontierCache()
             res.emit("fog.cnew", "ok")
             res.emit("hx.wcnew", "ok")
+        if case.get("refog_at") and step_no == case["refog_at"]:
+            # abandon the walk: fresh fog, same cache; what the new walk must find is judged from here on
+            fog = HexaryTrieFog()
+            res.emit("fog.new", str(nfogs))
+            fid = nfogs
+            nfogs += 1
+            res.emit("hx.wrefog", "ok")
+            met.clear()
+            versions[:] = [dict(r.model)]
+            mutated = False
+            res.tags.add("second-walk-same-cache")
         if not walk_step(item[1], item[2]):
             done = True
             break
